@@ -43,7 +43,7 @@ func mustBin(p kyber.Point) []byte {
 	return b
 }
 
-const stepWait = 10 * time.Second
+const stepWait = 5 * time.Second
 
 func splitList(s, sep string) []string {
 	if s == "-" {
